@@ -242,7 +242,7 @@ def _probe(I, fid):
 
 
 # ------------------------------------------------------------------ structure of the sequence (deductive, symbolic content length)
-def task_sequence_structure(I, mode):
+def task_sequence_structure(I, mode, prefix='C08', options_only=False):
     """encode_sequence with the content a symbolic sequence of characters of symbolic length:
     consecutive balanced chunks, one symbol per chunk, positions 0..n-1, total n-1, one parity,
     one version (the requested one, or one that fits every chunk).  make_segment, find_version,
@@ -251,12 +251,13 @@ def task_sequence_structure(I, mode):
     f = I.get_function('segno.encoder', 'encode_sequence')
     mc = C.mode_const(mode)
     st = {}
+    MSG_ENC = 'x-encoding-chosen-for-the-whole-message'
 
     def s_prepare_data(I, clo, args, kwargs):
         b = I.bind_args(clo, args, kwargs)
         from pyvc.values import Obj, TupObj, FieldBuf
         segs = Obj(enc.Segments)
-        seg = TupObj(enc._Segment, (FieldBuf(), 0, mc, 'iso-8859-1' if mode == 'byte' else None))
+        seg = TupObj(enc._Segment, (FieldBuf(), 0, mc, MSG_ENC if mode == 'byte' else None))
         segs.attrs.update(segments=[seg], modes=[mc], bit_length=0)
         return segs
 
@@ -264,6 +265,7 @@ def task_sequence_structure(I, mode):
         from pyvc.values import TupObj, FieldBuf
         b = I.bind_args(clo, args, kwargs)
         st['chunks'].append(b['data'])
+        st['chunk_enc'].append(b.get('encoding'))
         return TupObj(enc._Segment, (FieldBuf(), 0, b['mode'], None))
 
     def s_find_version(I, clo, args, kwargs):
@@ -276,6 +278,7 @@ def task_sequence_structure(I, mode):
         return v
 
     def s_parity(I, clo, args, kwargs):
+        st['parity_args'] = I.bind_args(clo, args, kwargs)
         st['parity'] = I.fresh_int('parity', 0, 255)
         return st['parity']
 
@@ -283,6 +286,21 @@ def task_sequence_structure(I, mode):
         b = I.bind_args(clo, args, kwargs)
         st['encoded'].append(b)
         return ('CODE', len(st['encoded']))
+
+    def s_encode(I, clo, args, kwargs):
+        # the public encode() reached from inside encode_sequence: recorded like _encode (same option names)
+        b = I.bind_args(clo, args, kwargs)
+        b.setdefault('sa_info', None)
+        st['encoded'].append(b)
+        return ('CODE', len(st['encoded']))
+    I.summaries['segno.encoder:encode'] = s_encode
+    OPT = dict(error='Q', mask=3, boost_error=False, eci=False)
+
+    def check_options(I, cfg, encd):
+        for i, b in enumerate(encd):
+            ok = b.get('mask') == 3 and b.get('error') == C.level_const('Q') and b.get('boost_error') is False and b.get('eci') is False
+            I.ground(prefix + '.encode_sequence.requested_mask_level_eci_boost_reach_every_symbol', ok,
+                     witness=dict(cfg=cfg, symbol=i, got={k: repr(b.get(k)) for k in ('mask', 'error', 'boost_error', 'eci')}, want=OPT))
     I.summaries['segno.encoder:prepare_data'] = s_prepare_data
     I.summaries['segno.encoder:make_segment'] = s_make_segment
     I.summaries['segno.encoder:find_version'] = s_find_version
@@ -291,14 +309,41 @@ def task_sequence_structure(I, mode):
     saved_str = I.native_models.get(str)
     I.native_models[str] = lambda x='': x if isinstance(x, SSeq) else saved_str(x)
     configs = [dict(version=v) for v in (1, 9, 10, 26, 27, 40)] + [dict(symbol_count=k) for k in range(1, 17)]
-    for cfg in configs:
-        def thunk(I):
+    # single-symbol route (version given, content fits one symbol of at most that version): one plain symbol, options forwarded
+    for ver in (1, 10, 40):
+        cfg1 = dict(version=ver)
+
+        def thunk1(I):
             st.clear()
-            st.update(chunks=[], found=[], encoded=[], no_single_symbol=True)
+            st.update(chunks=[], found=[], encoded=[], chunk_enc=[], no_single_symbol=False)
             data = SSeq.fresh('content', elem_lo=0, elem_hi=0x10ffff)
             st['data'] = data
             I.inputs['content_length'] = data.length
-            return I.call_function(f, (data,), dict(cfg, error='M'))
+            return I.call_function(f, (data,), dict(cfg1, **OPT))
+
+        def post1(I, kind, val):
+            if kind == 'raise':
+                I.ground(prefix + '.encode_sequence.only_ValueError_escapes', isinstance(val, ValueError), witness=dict(cfg=cfg1, raised=repr(val)))
+                return
+            encd = st['encoded']
+            check_options(I, cfg1, encd)
+            found = [v for (segs, v, sa) in st['found'] if not sa]
+            if len(encd) == 1 and encd[0].get('sa_info') is None:
+                I.ground_pass(prefix + '.encode_sequence.cover.single_symbol_route', 1, kind='cover')
+                I.oblige(prefix + '.encode_sequence.single_symbol_has_requested_version', encd[0]['version'] == ver)
+                I.ground(prefix + '.encode_sequence.single_symbol_only_if_content_fits_a_version_up_to_the_requested', bool(found), witness=dict(cfg=cfg1))
+                for v in found:
+                    I.oblige(prefix + '.encode_sequence.single_symbol_only_if_content_fits_a_version_up_to_the_requested', v <= ver)
+        I.replay_spec = dict(fn='replay_sequence_structure', mode=mode, cfg=repr(dict(cfg1, **OPT)))
+        I.explore(thunk1, post1)
+    for cfg in configs:
+        def thunk(I):
+            st.clear()
+            st.update(chunks=[], found=[], encoded=[], chunk_enc=[], no_single_symbol=True)
+            data = SSeq.fresh('content', elem_lo=0, elem_hi=0x10ffff)
+            st['data'] = data
+            I.inputs['content_length'] = data.length
+            return I.call_function(f, (data,), dict(cfg, **OPT))
 
         def post(I, kind, val):
             data = st['data']
@@ -308,6 +353,9 @@ def task_sequence_structure(I, mode):
                 return
             encd = st['encoded']
             cnt = len(encd)
+            check_options(I, cfg, encd)
+            if options_only:
+                return
             I.ground('C08.encode_sequence.between_1_and_16_symbols', 1 <= cnt <= 16 and len(val) == cnt, witness=dict(cfg=cfg, n=cnt))
             if 'symbol_count' in cfg:
                 I.ground('C08.encode_sequence.symbol_count_honoured', cnt == cfg['symbol_count'], witness=dict(cfg=cfg, n=cnt))
@@ -324,6 +372,13 @@ def task_sequence_structure(I, mode):
                 I.oblige('C08.encode_sequence.no_empty_chunk_if_enough_content', s_implies(n >= cnt, ch.length >= 1))
                 pos = pos + ch.length
             I.oblige('C08.encode_sequence.chunks_cover_message', pos == n)
+            # one character set for the whole message: every chunk is encoded with it and the parity is computed over it
+            pa = st.get('parity_args') or {}
+            I.ground('C08.encode_sequence.parity_is_computed_over_the_whole_message', pa.get('content') is data, witness=dict(cfg=cfg, arg=repr(pa.get('content'))[:60]))
+            if mode == 'byte':
+                I.ground('C08.encode_sequence.byte_chunks_use_the_encoding_of_the_whole_message', all(e == MSG_ENC for e in st['chunk_enc'][-cnt:]),
+                         witness=dict(cfg=cfg, encodings=[repr(e) for e in st['chunk_enc'][-cnt:]][:4]))
+                I.ground('C08.encode_sequence.parity_uses_the_encoding_of_the_whole_message', pa.get('encoding') == MSG_ENC, witness=dict(cfg=cfg, encoding=repr(pa.get('encoding'))))
             vers = [b['version'] for b in encd]
             for i, b in enumerate(encd):
                 sa = b['sa_info']
@@ -346,3 +401,4 @@ def task_sequence_structure(I, mode):
         I.replay_spec = dict(fn='replay_sequence_structure', mode=mode, cfg=repr(cfg))
         I.explore(thunk, post)
     I.native_models[str] = saved_str
+    I.summaries.pop('segno.encoder:encode', None)
